@@ -152,9 +152,12 @@ def ghost_var(name, type_):
 
 
 class StmtContract:
-    def __init__(self, key, match, ensures, label, props=(), facet=None):
+    def __init__(self, key, match, ensures, label, props=(), facet=None, lemma=False):
         self.key, self.match, self.ensures, self.label, self.props = key, match, list(ensures), label, list(props)
         self.facet = facet
+        # lemma=True: an intermediate assertion - proved where it stands (obligation), then available as a premise on the
+        # paths that continue from there (sound: it holds on every path that reaches the statement)
+        self.lemma = lemma
 
 
 def stmt_contract(key, match, ensures, label, **kw):
